@@ -401,10 +401,17 @@ let () =
   let all = ref [] in
   (try while true do all := input_line ic :: !all done with End_of_file -> ());
   let st = { lines = List.rev !all } in
+  let end_seen = ref false in
   let cases = ref 0 and bad = ref 0 in
   (try
      while st.lines <> [] do
-       let idx = match toks (pop st) with ["case"; i] -> i | t -> failwith ("case expected: " ^ String.concat " " t) in
+       let idx = match toks (pop st) with
+         | ["case"; i] -> i
+         | ["END"; k] ->
+           if st.lines <> [] then failwith "text after the END marker";
+           if int_of_string k <> !cases then failwith (Printf.sprintf "END marker says %s cases, %d read" k !cases);
+           end_seen := true; raise Exit
+         | t -> failwith ("case expected: " ^ String.concat " " t) in
        let net = parse_case st in
        let obs_err = match toks (pop st) with ["obs"; e] -> e = "1" | _ -> failwith "obs expected" in
        let rec obs () = match pop st with "endobs" -> [] | l -> l :: obs () in
@@ -437,7 +444,9 @@ let () =
            if !bad <= 10 then Printf.printf "MISMATCH case %s [string]: %s\n" idx what end);
        if verbose then List.iter (fun l -> print_endline ("  model: " ^ readable l)) model_lines
      done
-   with Failure m -> Printf.printf "DRIVER-ERROR %s\n" m; incr bad);
+   with Failure m -> Printf.printf "DRIVER-ERROR %s\n" m; incr bad
+      | Exit -> ());
+  if not !end_seen then begin Printf.printf "DRIVER-ERROR the case file has no END marker (truncated?)\n"; incr bad end;
   (match coq_out with
    | Some f ->
      let oc = open_out f in
